@@ -17,6 +17,11 @@ type frontEnd struct {
 	call    func(t *rt, l zapcore.Level, msg string)
 }
 
+// probeName: this front end carries malformed loosely-typed context, which makes the sugared logger log a
+// diagnostic of its own when the entry is written; it is judged only where the reference says that no leaf
+// accepts the entry: then nothing at all may be observed.
+const probeName = "Sugar.Logw(non-string and dangling keys)"
+
 func anyLevel(int8) bool { return true }
 func named(l int8) bool  { return l >= lDebug && l <= lFatal }
 func only(ls ...int8) func(int8) bool {
@@ -50,6 +55,11 @@ var frontEnds = []frontEnd{
 		}
 	}},
 	{"Sugar.Logw", "sugar", true, false, anyLevel, func(t *rt, l zapcore.Level, msg string) { t.sugar.Logw(l, msg, "f", countM{&t.entryM}) }},
+	// not at Panic / Fatal: those calls have to run their terminal action even when disabled, so the entry is
+	// "written" (to no core) and the diagnostics about the malformed context are logged as Error entries of their own
+	{probeName, "sugar", true, false, func(l int8) bool { return l != lPanic && l != lFatal }, func(t *rt, l zapcore.Level, msg string) {
+		t.sugar.Logw(l, msg, "f", countM{&t.entryM}, 42, "non-string key", "dangling")
+	}},
 	{"Sugar.Log", "sugar", false, false, anyLevel, func(t *rt, l zapcore.Level, msg string) { t.sugar.Log(l, msg) }},
 	{"Sugar.Logf", "sugar", false, false, anyLevel, func(t *rt, l zapcore.Level, msg string) { t.sugar.Logf(l, "%s", msg) }},
 	{"Sugar.Logln", "sugar", false, false, anyLevel, func(t *rt, l zapcore.Level, msg string) { t.sugar.Logln(l, msg) }},
